@@ -91,6 +91,20 @@ def cases(tier):
                 out.append(dict(route='cli', file=fname, ops=h, grouped=True))
     for fname in FILES:
         out.append(dict(route='cli', file=fname, ops=[], grouped=False))
+    # long command lines: every sequence of 4 and 5 overrides over three items (repeats: the last occurrence of an item wins)
+    items = [('Tabulation', 'nr', ['5', '6', '7', '8', '9']), ('Tabulation', 'cutoff', ['2.5', '3.0', '3.5', '4.5', '5.0']),
+             ('Pair', 'O-O', ['as.lj 0.2 2.5', 'as.morse 1.8 2.0 0.6', 'as.lj 0.3 2.2', 'as.zero', 'as.hbnd 120.0 35.0'])]
+    for n in ((4, 5) if tier == 'quick' else (4, 5, 6)):
+        for seq in itertools.product(range(3), repeat=n):
+            if len(set(seq)) < 2:
+                continue
+            ops = [['O', items[i][0], items[i][1], items[i][2][k % 5]] for k, i in enumerate(seq)]
+            out.append(dict(route='cli', file='pair', ops=ops, grouped=('split' if sum(seq) % 2 else False), light=True))
+    # the API accepts any iterable of override tuples
+    for fname in FILES:
+        for h in hist.histories(alphabet(fname), 2, valid_api):
+            for cont in ('tuple', 'generator'):
+                out.append(dict(route='api', file=fname, ops=h, light=True, container=cont))
     return out
 
 
@@ -150,6 +164,10 @@ def run_api(case):
     ref, bad, why = reference(fname, ops)
     ov = [T(o[1], o[2], o[3] if o[0] == 'O' else None) for o in ops if o[0] in 'OX']
     ad = [T(o[1], o[2], o[3]) for o in ops if o[0] == 'A']
+    if case.get('container') == 'tuple':
+        ov, ad = tuple(ov), tuple(ad)
+    elif case.get('container') == 'generator':
+        ov, ad = (x for x in list(ov)), iter(list(ad))
     text = FILES[fname]().render()
     state = 'rejected@%s' % bad if ref is None else repr(ref.to_json())
     try:
@@ -185,6 +203,11 @@ def run_api(case):
 def cli_args(ops, grouped):
     flag = {'O': '-e', 'X': '-r', 'A': '-a'}
     args = []
+    if grouped == 'split':
+        # two occurrences of one option, each with several values
+        vals = ['%s:%s=%s' % (o[1], o[2], o[3]) for o in ops]
+        k = len(vals) // 2 + 1
+        return ['-e'] + vals[:k] + ['-e'] + vals[k:]
     if grouped:
         for kind in 'OXA':
             vals = ['%s:%s%s' % (o[1], o[2], '=' + o[3] if kind != 'X' else '') for o in ops if o[0] == kind]
@@ -233,6 +256,10 @@ def run_cli(case):
         if a != b:
             viol.append(dict(sig='cli-differs-from-edited-file', msg='potable %s on the %s file gives %s; the hand-edited file gives %s' % (' '.join(args), fname, str(a)[:200], str(b)[:200]),
                              detail={'edited': ref.render()}))
+        elif case.get('light'):
+            li = R.potable(text, args=args + ['--list-items'], want_output=False)
+            if li.status != 0 or sorted(parse_items(li.stdout)) != sorted(ref.items()):
+                viol.append(dict(sig='list-items', msg='potable %s --list-items prints %r; the edited file has the items %r' % (' '.join(args), sorted(parse_items(li.stdout)), sorted(ref.items())), detail={}))
         else:
             # --list-items / --list-item-labels / --item-value on the edited configuration
             li = R.potable(text, args=args + ['--list-items'], want_output=False)
